@@ -141,6 +141,7 @@ func (rl *Shell) Selection() *core.Selection { return rl.selection }
 // and input line (and possibly completions/hints if active) below the logged string.
 // A newline is added to the message so that the prompt is correctly refreshed below.
 func (rl *Shell) Printf(msg string, args ...any) (n int, err error) {
+	core.YieldPoint("printf.entry")
 	// First go back to the last line of the input line,
 	// and clear everything below (hints and completions).
 	rl.Display.CursorBelowLine()
@@ -151,6 +152,7 @@ func (rl *Shell) Printf(msg string, args ...any) (n int, err error) {
 	n, err = fmt.Printf(msg+"\n", args...)
 
 	// Redisplay the prompt, input line and active helpers.
+	core.YieldPoint("printf.beforerefresh")
 	rl.Prompt.PrimaryPrint()
 	rl.Display.Refresh()
 
@@ -160,6 +162,7 @@ func (rl *Shell) Printf(msg string, args ...any) (n int, err error) {
 // PrintTransientf prints a formatted string in place of the current prompt and input
 // line, and then refreshes, or "pushes" the prompt/line below this printed message.
 func (rl *Shell) PrintTransientf(msg string, args ...any) (n int, err error) {
+	core.YieldPoint("printtransientf.entry")
 	// First go back to the beginning of the line/prompt, and
 	// clear everything below (prompt/line/hints/completions).
 	rl.Display.CursorToLineStart()
@@ -171,6 +174,7 @@ func (rl *Shell) PrintTransientf(msg string, args ...any) (n int, err error) {
 	n, err = fmt.Printf(msg+"\n", args...)
 
 	// Redisplay the prompt, input line and active helpers.
+	core.YieldPoint("printf.beforerefresh")
 	rl.Prompt.PrimaryPrint()
 	rl.Display.Refresh()
 
